@@ -25,6 +25,7 @@ theorem compileItem_env (cfg : Cfg) (st : St) (it : Item) :
   | const name ty val => simp [compileItem, newBind_env]
   | func name ty body ok => simp only [compileItem]; split <;> simp [newBind_env]
   | typ tname d => simp only [compileItem]; split <;> (try split) <;> simp
+  | alias tname target => simp only [compileItem]; split <;> simp
   | bad => simp [compileItem]
   | boom => simp [compileItem]
 
@@ -66,7 +67,7 @@ theorem no_exec_on_failed_compile (cfg : Cfg) (st : St) (inp : Input) (h : (eval
 /-! ## well-formed states: every named type object a bind or a type name refers to exists -/
 
 structure WF (st : St) : Prop where
-  bindObj : ∀ p ∈ st.binds, 2 ≤ p.2.ty → p.2.ty - 2 < st.nObj
+  bindObj : ∀ p ∈ st.binds, 4 ≤ p.2.ty → p.2.ty - 4 < st.nObj
   typeObj : ∀ p ∈ st.types, p.2 < st.nObj
 
 theorem WF_init : WF St.init := by constructor <;> simp [St.init]
@@ -86,7 +87,7 @@ theorem lookup_mem {α : Type} (l : List (Nat × α)) (n : Nat) (a : α) (h : l.
       exact List.mem_cons_of_mem _ (ih h)
 
 theorem newBind_WF (st : St) (name : Nat) (cls : Cls) (ty d0 cval : Nat) (h : WF st)
-    (hty : 2 ≤ ty → ty - 2 < st.nObj) : WF (newBind st name cls ty d0 cval).1 := by
+    (hty : 4 ≤ ty → ty - 4 < st.nObj) : WF (newBind st name cls ty d0 cval).1 := by
   obtain ⟨_, _, h3, _, h5, e, h6, h7⟩ := newBind_env st name cls ty d0 cval
   constructor
   · intro p hp
@@ -101,7 +102,9 @@ theorem newBind_WF (st : St) (name : Nat) (cls : Cls) (ty d0 cval : Nat) (h : WF
 theorem compileItem_WF (cfg : Cfg) (st : St) (it : Item) (h : WF st) : WF (compileItem cfg st it).1 := by
   cases it with
   | var name ty val =>
-    simp only [compileItem]; apply newBind_WF _ _ _ _ _ _ h; intro h2; split at h2 <;> omega
+    simp only [compileItem]; apply newBind_WF _ _ _ _ _ _ h; intro h2
+    have : basicTy ty < 4 := by unfold basicTy; split <;> omega
+    omega
   | varT name tname val =>
     simp only [compileItem]
     split
@@ -135,6 +138,18 @@ theorem compileItem_WF (cfg : Cfg) (st : St) (it : Item) (h : WF st) : WF (compi
       · exact fresh
       · exact ⟨h.bindObj, h.typeObj⟩
     · exact fresh
+  | alias tname target =>
+    simp only [compileItem]
+    split
+    · exact h
+    · rename_i o ho
+      have hlt := h.typeObj (target, o) (lookup_mem _ _ _ ho)
+      constructor
+      · intro p hp h2; exact h.bindObj p hp h2
+      · intro p hp; simp only [List.mem_cons] at hp
+        rcases hp with rfl | hp
+        · exact hlt
+        · exact h.typeObj p hp
   | bad => exact h
   | boom => exact h
 
@@ -173,6 +188,7 @@ theorem compileItem_objs (st : St) (it : Item) (cfg : Cfg) (hf : cfg.freshType =
   | typ tname d =>
     simp only [compileItem, hf, if_true]
     split <;> simp [List.lookup_cons, hne]
+  | alias tname target => simp only [compileItem]; split <;> simp
   | bad => simp [compileItem]
   | boom => simp [compileItem]
 
@@ -196,6 +212,7 @@ theorem compileItem_nObj (cfg : Cfg) (st : St) (it : Item) : st.nObj ≤ (compil
   | const name ty val => simp [compileItem, newBind_env]
   | func name ty body ok => simp only [compileItem]; split <;> simp [newBind_env]
   | typ tname d => simp only [compileItem]; split <;> (try split) <;> simp
+  | alias tname target => simp only [compileItem]; split <;> simp
   | bad => simp [compileItem]
   | boom => simp [compileItem]
 
@@ -217,7 +234,7 @@ def FailedCompilePreserves (cfg : Cfg) : Prop :=
     (∀ t, resolveType (eval cfg st inp).1 t = resolveType st t)
 
 theorem resolve_congr {st st' : St} (hb : st'.binds = st.binds) (hi : st'.ints = st.ints) (hv : st'.vals = st.vals)
-    (ho : ∀ p ∈ st.binds, 2 ≤ p.2.ty → st'.objs.lookup (p.2.ty - 2) = st.objs.lookup (p.2.ty - 2)) (n : Nat) :
+    (ho : ∀ p ∈ st.binds, 4 ≤ p.2.ty → st'.objs.lookup (p.2.ty - 4) = st.objs.lookup (p.2.ty - 4)) (n : Nat) :
     resolve st' n = resolve st n := by
   unfold resolve
   rw [hb]
@@ -226,7 +243,7 @@ theorem resolve_congr {st st' : St} (hb : st'.binds = st.binds) (hi : st'.ints =
   | some e =>
     simp only [hi, hv]
     have hm := lookup_mem _ _ _ hl
-    by_cases h2 : e.ty < 2
+    by_cases h2 : e.ty < 4
     · simp [h2]
     · have := ho (n, e) hm (by simp; omega)
       simp only [] at this
@@ -325,6 +342,7 @@ theorem compileItem_fail_preserves (cfg : Cfg) (st : St) (it : Item) (h : (compi
     · simp at h
     · rename_i hok; simp [hok, newBind_env]
   | typ tname d => simp only [compileItem] at h; split at h <;> (try split at h) <;> simp at h
+  | alias tname target => simp only [compileItem] at h ⊢; split at h <;> simp_all
   | bad => simp [compileItem]
   | boom => simp [compileItem] at h
 
@@ -415,6 +433,7 @@ theorem compileItem_lookup (cfg : Cfg) (st : St) (it : Item) (n : Nat) (h : decl
     · exact newBind_lookup _ _ _ _ _ _ _ (by simpa [declares] using h)
     · rfl
   | typ tname d => simp only [compileItem]; split <;> (try split) <;> rfl
+  | alias tname target => simp only [compileItem]; split <;> rfl
   | bad => rfl
   | boom => rfl
 
@@ -451,7 +470,7 @@ theorem redefinition_keeps_old_types (cfg : Cfg) (hf : cfg.freshType = true) : R
     | none => rfl
     | some e =>
       have hm := lookup_mem _ _ _ hl
-      by_cases h2 : e.ty < 2
+      by_cases h2 : e.ty < 4
       · simp [h2]
       · have := ho _ (hwf.bindObj (n, e) hm (by simp; omega))
         simp only [] at this
